@@ -192,6 +192,7 @@ func builtinIntrinsics() map[string]Intrinsic {
 	// ---- sync ----
 	noop := func(x *Exec, s *State, a []Value, _ *ssa.Call) []Outcome { return one(nil) }
 	m["(*sync.Once).Do"] = inOnceDo
+	m["encoding/json.Marshal"] = inJSONMarshal
 	m["(*sync.Mutex).Lock"] = noop
 	m["(*sync.Mutex).Unlock"] = noop
 	m["(*sync.RWMutex).RLock"] = noop
